@@ -66,6 +66,11 @@ pub struct World {
     /// `filter_candidates` returns its result in reverse input order (the trait does not promise any order)
     #[serde(default)]
     pub filter_reversed: bool,
+    /// Per package: (threshold, alternative ranking). `sort_candidates` ranks a slice of at least `threshold`
+    /// candidates of that package by the alternative permutation - a provider whose ranking depends on what it is
+    /// asked to compare (the trait only asks it to sort the slice it is given).
+    #[serde(default)]
+    pub alt_rank: BTreeMap<u32, (usize, Vec<u32>)>,
 }
 
 #[derive(Clone, Debug, PartialEq, Eq, Serialize, Deserialize, Default)]
@@ -127,9 +132,17 @@ impl World {
             .unwrap_or(usize::MAX)
     }
 
-    /// What `sort_candidates` does to a list: stable sort by rank position.
+    /// What `sort_candidates` does to a list: the ranking policy is looked up once, for the package of the slice (its
+    /// first element) and for the size of the slice; then a stable sort by position in that ranking (solvables the
+    /// ranking does not know keep their relative order at the end).
     pub fn sort_by_rank(&self, xs: &mut [u32]) {
-        xs.sort_by_key(|&s| self.rank_pos(s));
+        let Some(&first) = xs.first() else { return };
+        let name = self.solvable_name(first);
+        let rank: &Vec<u32> = match self.alt_rank.get(&name) {
+            Some((t, alt)) if xs.len() >= *t => alt,
+            _ => &self.packages[&name].rank,
+        };
+        xs.sort_by_key(|&s| rank.iter().position(|&x| x == s).unwrap_or(usize::MAX));
     }
 
     /// Documented preference order for a version set: matching candidates in `sort_candidates` order with
